@@ -24,25 +24,28 @@ func init() {
 	mon.Register(&mon.Property{
 		ID:    "C18",
 		Level: "exploration",
-		Rule: "EXHAUSTIVE enumeration (both tiers) of the option lattice " + latticeText() + " = " + fmt.Sprint(latticeSize()) + " points, split over the workers by index modulo the worker count; " +
-			"material is minted per worker (two ECDSA CAs, two server certificates for two names, an RSA-2048 and an ECDSA client pair, a second ECDSA key as the mismatching key, an Ed25519 key as the unsupported type, " +
-			"PEM files in a temp dir incl. a non-existent path and a non-PEM file). For every point TLSClientAuth is called and the returned config/error is compared with a table written from the doc comments " +
+		Rule: "EXHAUSTIVE enumeration (both tiers) of the option lattice " + latticeText() + " = " + fmt.Sprint(latticeSize()) + " points, split over the workers by (permuted) index modulo the worker count; " +
+			"material is minted per worker (two ECDSA CAs plus a third that is installed as Go's system root store through SSL_CERT_FILE, server certificates for two names, an RSA-2048 and an ECDSA client pair, " +
+			"a second ECDSA key as the mismatching key, an Ed25519 key as the unsupported type, PEM files in a temp dir incl. a non-existent path and a non-PEM file). For every point TLSClientAuth is called and the returned config/error is compared with a table written from the doc comments " +
 			"(MinVersion, InsecureSkipVerify vs ServerName, RootCAs via CertPool.Equal against an independently built pool, ServerName, callback identity by calling it, session settings, client certificate + key, error for unusable material); " +
 			"TLSTransport and TLSClient are inspected the same way on the sub-lattice with default callback/session flags. " +
-			"Handshakes: for the projection with default session flags where a config is returned, real TLS handshakes via tls.Dial against three loopback listeners that request and record client certificates " +
-			"(S1: alpha.test + 127.0.0.1 signed by CA1; S2: beta.test signed by CA2; legacy: S1's certificate but TLS <= 1.1 only); expected outcome from x509.Verify on the independently built expected pool; " +
-			"quick = a PRNG-chosen tenth of the (point, listener) pairs, thorough = all of them. " +
-			"non-trivial = a lattice point with at least one option set (distinct by lattice index), and each executed handshake (distinct by lattice index x listener)",
+			"Handshakes: for the projection with default session flags where a config is returned, real TLS handshakes via tls.Dial against four loopback listeners that request and record client certificates " +
+			"(S0: alpha.test + 127.0.0.1 signed by the system root; S1: alpha.test + 127.0.0.1 signed by CA1; S2: beta.test signed by CA2; legacy: S1's certificate but TLS <= 1.1 only), " +
+			"with the supplied callback accepting and (a second case) rejecting; expected outcome from x509.Verify on the independently built expected pool; " +
+			"quick = a PRNG-chosen tenth of the (point, listener, verdict) cases, thorough = all of them. " +
+			"non-trivial = a lattice point with at least one option set (distinct by lattice index), and each executed handshake (distinct by lattice index x listener x verdict)",
 		Assumptions: []string{
 			"a key supplied without any certificate is not judged for the error (nothing to present, no identity is dropped); if a config is returned it must carry no client certificate",
 			"a readable CA file without any PEM certificate: either an error or a non-nil pool holding only the other supplied roots is accepted (it must not fall back to the system pool)",
 			"the CA file is ignored when LoadedCA is set and LoadedCertificate/LoadedKey are ignored when Certificate is set, as the doc comments say; Key without Certificate is ignored",
 			"an InsecureSkipVerify request that is not honoured (stricter than asked) is recorded as a class, not as a violation: the statement only forbids skipping when not requested or when a server name is given",
 			"'unreadable' files are modelled by a path that does not exist (the workers run as root, permission bits do not block reads)",
+			"Go's system root store is replaced, per worker process, by one minted CA (SSL_CERT_FILE / SSL_CERT_DIR), so that 'the system pool' is a known set; evidence note system_pool_pinned counts the workers where that took effect",
 			"the handshake oracle trusts crypto/x509 Verify and crypto/tls of the Go toolchain; the client dials with tls.Dial, which fills an empty ServerName from the dialled host (127.0.0.1), as net/http does",
-			"a handshake whose watchdog (5 s) fires is counted as class hs-watchdog and not judged",
+			"a handshake in which either side hits the 15 s watchdog deadline is retried once and then counted as class hs-watchdog; it is never judged",
 		},
 		MinNontrivial: 100000,
+		QuickShards:   8,
 		Run:           run,
 		Replay:        replay,
 		Exhaustive:    func(string) bool { return true },
@@ -66,7 +69,7 @@ var dims = []dim{
 	{"pool", []string{"", "ca2", "empty", "system+ca2"}},
 	{"server_name", []string{"", "alpha.test", "beta.test"}},
 	{"insecure", []string{"", "true"}},
-	{"callback", []string{"", "accept", "reject"}},
+	{"callback", []string{"", "set"}},
 	{"tickets_disabled", []string{"", "true"}},
 	{"session_cache", []string{"", "true"}},
 }
@@ -147,9 +150,21 @@ func indexOf(p Point) int {
 
 func (p Point) trivial() bool { return p == Point{} }
 
-// Range is a batch of lattice indices (crash witness of an inspection batch).
+// Range is a batch of lattice walk positions (crash witness of an inspection batch); position k
+// stands for lattice index permute(k).
 type Range struct {
 	From, To, Step int
+}
+
+// permute is a bijection of the lattice indices (multiplication by a prime that does not divide
+// the lattice size), used so that every worker gets an even mix of cheap and expensive points.
+func permute(k int) int {
+	const prime = 1000003
+	n := latticeSize()
+	if n%prime == 0 {
+		return k
+	}
+	return int(int64(k) * prime % int64(n))
 }
 
 // Case is one lattice point judged through one entry point, optionally with one handshake.
@@ -157,19 +172,21 @@ type Case struct {
 	Range  *Range `json:"range,omitempty"`
 	Point  *Point `json:"point,omitempty"`
 	Entry  string `json:"entry,omitempty"`  // TLSClientAuth (default) | TLSTransport | TLSClient
-	Server string `json:"server,omitempty"` // "" = inspection only | s1 | s2 | legacy
+	Server string `json:"server,omitempty"` // "" = inspection only | s0 | s1 | s2 | legacy
+	Reject bool   `json:"reject,omitempty"` // handshake: the supplied callback rejects the peer
 }
 
 // ---- building the options of a point ----
 
 type handles struct {
 	cbCalls *int
+	verdict *error // what the supplied callback answers
 	cache   tls.ClientSessionCache
 }
 
 func build(p Point, mat *material) (client.TLSClientOptions, *handles) {
 	var o client.TLSClientOptions
-	h := &handles{cbCalls: new(int)}
+	h := &handles{cbCalls: new(int), verdict: new(error)}
 	o.Certificate = mat.path(p.CertFile, "crt")
 	o.Key = mat.path(p.KeyFile, "key")
 	switch p.LoadedCert {
@@ -198,11 +215,8 @@ func build(p Point, mat *material) (client.TLSClientOptions, *handles) {
 	o.LoadedCAPool = mat.pool(p.Pool)
 	o.ServerName = p.ServerName
 	o.InsecureSkipVerify = p.Insecure
-	switch p.Callback {
-	case "accept":
-		o.VerifyPeerCertificate = func([][]byte, [][]*x509.Certificate) error { *h.cbCalls++; return nil }
-	case "reject":
-		o.VerifyPeerCertificate = func([][]byte, [][]*x509.Certificate) error { *h.cbCalls++; return errRejected }
+	if p.Callback != "" {
+		o.VerifyPeerCertificate = func([][]byte, [][]*x509.Certificate) error { *h.cbCalls++; return *h.verdict }
 	}
 	o.SessionTicketsDisabled = p.TicketsDisabled
 	if p.SessionCache {
@@ -448,11 +462,14 @@ func inspect(p Point, cfg *tls.Config, err error, h *handles, mat *material, ent
 	case p.Callback != "" && cfg.VerifyPeerCertificate == nil:
 		add("callback-dropped", "VerifyPeerCertificate was given but is nil in the config")
 	case p.Callback != "":
-		before := *h.cbCalls
-		got := cfg.VerifyPeerCertificate(nil, nil)
-		wantErr := p.Callback == "reject"
-		if *h.cbCalls != before+1 || (got != nil) != wantErr || (wantErr && got != errRejected) {
-			add("callback-changed", "calling the config's VerifyPeerCertificate did not reach the given callback exactly once with its verdict (calls %d -> %d, returned %v)", before, *h.cbCalls, got)
+		before, saved := *h.cbCalls, *h.verdict
+		*h.verdict = errRejected
+		got1 := cfg.VerifyPeerCertificate(nil, nil)
+		*h.verdict = nil
+		got2 := cfg.VerifyPeerCertificate(nil, nil)
+		*h.verdict = saved
+		if *h.cbCalls != before+2 || got1 != errRejected || got2 != nil {
+			add("callback-changed", "calling the config's VerifyPeerCertificate twice did not reach the given callback once per call with its verdicts (calls %d -> %d, returned %v then %v)", before, *h.cbCalls, got1, got2)
 		}
 	}
 	if cfg.SessionTicketsDisabled != p.TicketsDisabled {
@@ -574,21 +591,22 @@ func (p Point) wrapperProjection() bool {
 
 func (p Point) handshakeProjection() bool { return !p.TicketsDisabled && !p.SessionCache }
 
-var serverKinds = []string{"s1", "s2", "legacy"}
+var serverKinds = []string{"s0", "s1", "s2", "legacy"}
 
 func (w *worker) sweep(from, to, step int, handshakes bool) {
 	m := w.m
 	r := m.Rand("handshake-sample")
 	batch := 0
-	for idx := from; idx < to; idx += step {
+	for k := from; k < to; k += step {
 		if batch%1000 == 0 {
-			end := idx + 1000*step
+			end := k + 1000*step
 			if end > to {
 				end = to
 			}
-			m.Begin(&Case{Range: &Range{From: idx, To: end, Step: step}})
+			m.Begin(&Case{Range: &Range{From: k, To: end, Step: step}})
 		}
 		batch++
+		idx := permute(k)
 		p := pointAt(idx)
 		ok := w.inspectPoint(p, "TLSClientAuth")
 		if !p.trivial() {
@@ -601,14 +619,19 @@ func (w *worker) sweep(from, to, step int, handshakes bool) {
 		if handshakes && ok && p.handshakeProjection() {
 			did := false
 			for _, sk := range serverKinds {
-				m.Note("handshake_pairs_in_projection", 1)
-				if m.Quick() && r.Intn(10) != 0 {
-					continue
+				for _, reject := range []bool{false, true} {
+					if reject && p.Callback == "" {
+						continue
+					}
+					m.Note("handshake_cases_in_projection", 1)
+					if m.Quick() && r.Intn(10) != 0 {
+						continue
+					}
+					did = true
+					m.Begin(&Case{Point: &p, Server: sk, Reject: reject})
+					w.handshake(p, sk, reject)
+					m.NT(fmt.Sprintf("hs|%d|%s|%v", idx, sk, reject))
 				}
-				did = true
-				m.Begin(&Case{Point: &p, Server: sk})
-				w.handshake(p, sk)
-				m.NT(fmt.Sprintf("hs|%d|%s", idx, sk))
 			}
 			if did {
 				batch = 0 // re-mark the inspection batch after a handshake marker
@@ -624,6 +647,11 @@ func run(m *mon.M) {
 		return
 	}
 	defer os.RemoveAll(mat.dir)
+	if sysPinned {
+		m.Note("system_pool_pinned", 1)
+	} else {
+		m.Note("system_pool_not_pinned", 1)
+	}
 	w := &worker{m: m, mat: mat}
 	if err := w.startServers(); err != nil {
 		m.Violate("harness-listen-failed", err.Error(), nil)
@@ -635,7 +663,6 @@ func run(m *mon.M) {
 		step = 1
 	}
 	w.sweep(m.Shard, latticeSize(), step, true)
-	m.Note("lattice_size", 0) // merged value is meaningless per shard; the size is in the rule text
 }
 
 func replay(m *mon.M, raw json.RawMessage) {
@@ -680,7 +707,7 @@ func replay(m *mon.M, raw json.RawMessage) {
 			return
 		}
 		defer w.stopServers()
-		w.handshake(*c.Point, c.Server)
+		w.handshake(*c.Point, c.Server, c.Reject)
 	default:
 		m.Violate("bad-replay-case", "neither point nor range", nil)
 	}
